@@ -56,6 +56,19 @@ SPEC = dict(
         dict(name='remove_pop_bounded', harness='h_remove_pop_bounded', mode='bounded', unwind=9, defines=['VF_BOUNDED'], timeout=300),
         dict(name='head_min_bounded', harness='h_head_min_bounded', mode='bounded', unwind=9, defines=['VF_BOUNDED'], timeout=300),
     ],
-    assumptions=[],
-    drops=[],
+    assumptions=[
+        'time_point keys are represented by an int64 scalar: the heap uses only `<` and `<=` of the key; group monotonic_clock proves that time_point\'s operators are a strict total order with '
+        'a <= b iff !(b < a) on all pairs (lemma_order) and the order of the values on canonical pairs (lemma_order_value, |s| < 2^32) -- the int64 order is a model of exactly those facts',
+        'M2 meta-argument: head_window_build() / member_window_build() / the cut-point stub enumerate every shape the local list invariant (head has no predecessor; m = n->next implies m->prev == n and '
+        'n.due <= m.due) allows around the operand, far ends opaque; the successor of a list member is a member; a sorted sequence with x spliced between adjacent a <= x < b is sorted with x behind every '
+        'equal key; removing an element of a sorted sequence leaves it sorted -- facts about sequences, cross-checked by the bounded units (lists of at most 6 items), not re-proved unboundedly',
+        'caller obligations (checked as /*P*/ preconditions at the contracts, discharged at the call sites in group io_epoll): top() / pop() on a non-empty heap, remove() of an item that is linked into '
+        'this heap, insert() of an item that is not linked; the heap is confined to the I/O thread (no interference)',
+        'head-is-a-minimum (never-early / due-time order of update_timers via top() + pop()) follows from local sortedness by induction along the list: proved for lists of at most 6 items (bounded), '
+        'unbounded only as the adjacent-pair statement in pop()\'s contract (popped.due <= new head.due)',
+        'the destructor (walk with assertions only, UNIFEX_ASSERT(empty())) is classified, not verified; io_uring_context::timer_heap is the same instantiation text and is covered by the same units '
+        '(closed-world scan of its link fields included)',
+    ],
+    drops=['template parameters -> the io_epoll_context::timer_heap instantiation (T = schedule_at_operation, ->*Next / ->*Prev / ->*SortKey -> timerNext_ / timerPrev_ / dueTime_); the argument list is re-read from '
+           'io_epoll_context.hpp on every run (lemma_heap)', 'Key = monotonic_clock::time_point -> int64', 'noexcept / const', 'schedule_at_operation reduced to its three heap fields (+ a ghost id in the bounded units)'],
 )
